@@ -114,6 +114,7 @@ func main() {
 					m.WriterKeys = map[string]bool{"a": true} // quick tier: only key a carries its writer (x4 states instead of x64)
 				}
 				ds := []*kvh.Driver{kvh.NewDriver("inmem", e.im.Fresh(), base), kvh.NewDriver("redis", e.rd.Fresh(), base)}
+				ds[0].TwoIterators, ds[1].TwoIterators = true, true
 				// A listed known finding (the Redis backend strips leading '/': "/c" and "c" alias) does not end the
 				// exploration behind it: it is recorded, the aliased key is no longer observed on that backend for
 				// the rest of the history, and the search goes on - other defects around slash-prefixed keys stay visible.
